@@ -7,6 +7,8 @@ import (
 	"fmt"
 	"io"
 	"sort"
+	"strings"
+	"sync"
 	"testing"
 
 	"pgregory.net/rapid"
@@ -568,3 +570,142 @@ var specC11 = &Spec{
 }
 
 func TestC11(t *testing.T) { RunProperty(t, specC11) }
+
+// ---------------------------------------------------------------------------------------------------------------
+// concurrent batches: conditions and effects of one batch are atomic with respect to other batches
+
+type c11Round struct {
+	Kind string `json:"kind"` // pine | cas | delcur
+	N    int    `json:"n"`    // competing goroutines
+}
+
+type c11ConcCase struct {
+	Engine string
+	Rounds []c11Round
+}
+
+func genC11Conc(t *rapid.T) interface{} {
+	c := &c11ConcCase{Engine: EnvStr("VERIF_ENGINE", EngMem)}
+	n := rapid.IntRange(3, 12).Draw(t, "nrounds")
+	for i := 0; i < n; i++ {
+		c.Rounds = append(c.Rounds, c11Round{Kind: rapid.SampledFrom([]string{"pine", "cas", "delcur"}).Draw(t, "kind"), N: rapid.IntRange(2, 4).Draw(t, "n")})
+	}
+	return c
+}
+
+func runC11Conc(ci interface{}, st *CaseStats) error {
+	c := ci.(*c11ConcCase)
+	eng, err := OpenEngine(c.Engine)
+	if err != nil {
+		return Inconclusivef("engine: %v", err)
+	}
+	defer eng.Close()
+	kv := eng.KV
+	ctx := context.Background()
+	st.Label("engine:" + c.Engine)
+	for ri, r := range c.Rounds {
+		key := []byte(fmt.Sprintf("c11c/key-%d", ri))
+		v0 := []byte("v0")
+		if r.Kind != "pine" {
+			b := kv.BeginBatchWrite()
+			b.Put(key, v0, 0)
+			if err := b.Commit(ctx); err != nil {
+				return Inconclusivef("seed: %v", err)
+			}
+		}
+		iters := make([]storage.Iter, r.N)
+		if r.Kind == "delcur" {
+			for i := range iters {
+				it, err := kv.Iter(ctx, key, append(append([]byte{}, key...), 0xff), 0, 0)
+				if err != nil || it.Next(ctx) != nil {
+					return Inconclusivef("iter: %v", err)
+				}
+				iters[i] = it
+			}
+		}
+		start := make(chan struct{})
+		errs := make([]error, r.N)
+		var wg sync.WaitGroup
+		for i := 0; i < r.N; i++ {
+			wg.Add(1)
+			go func(i int) {
+				defer wg.Done()
+				defer func() {
+					if p := recover(); p != nil {
+						errs[i] = fmt.Errorf("panic: %v", p)
+					}
+				}()
+				<-start
+				b := kv.BeginBatchWrite()
+				switch r.Kind {
+				case "pine":
+					b.PutIfNotExist(key, []byte(fmt.Sprintf("w%d", i)), 0)
+				case "cas":
+					b.CAS(key, []byte(fmt.Sprintf("w%d", i)), v0, 0)
+				default:
+					b.DelCurrent(iters[i])
+				}
+				b.Put([]byte(fmt.Sprintf("c11c/marker-%d-%d", ri, i)), []byte("m"), 0)
+				errs[i] = b.Commit(ctx)
+			}(i)
+		}
+		close(start)
+		wg.Wait()
+		for _, it := range iters {
+			if it != nil {
+				_ = it.Close()
+			}
+		}
+		winners := 0
+		winner := -1
+		for i, e := range errs {
+			if e != nil && strings.HasPrefix(e.Error(), "panic:") {
+				return fmt.Errorf("round %d (%s): %v", ri, r.Kind, e)
+			}
+			if e == nil {
+				winners++
+				winner = i
+			}
+			_, merr := kv.Get(ctx, []byte(fmt.Sprintf("c11c/marker-%d-%d", ri, i)))
+			if (e == nil) != (merr == nil) {
+				return fmt.Errorf("round %d (%s, %d competing batches): batch %d reported %v but its unconditional write is present=%v: a batch must take effect entirely or not at all", ri, r.Kind, r.N, i, e, merr == nil)
+			}
+		}
+		if winners > 1 {
+			return fmt.Errorf("round %d: %d of %d batches conditioned on the same state of one key (%s) all took effect", ri, winners, r.N, r.Kind)
+		}
+		got, gerr := kv.Get(ctx, key)
+		switch {
+		case r.Kind == "delcur":
+			if winners == 1 && gerr != storage.ErrKeyNotFound {
+				return fmt.Errorf("round %d: a compare-and-delete succeeded but the key is still there (%q, %v)", ri, got, gerr)
+			}
+		case winners == 1:
+			if want := fmt.Sprintf("w%d", winner); string(got) != want {
+				return fmt.Errorf("round %d (%s): batch %d won but the key holds %q", ri, r.Kind, winner, got)
+			}
+		case r.Kind == "cas":
+			if string(got) != "v0" {
+				return fmt.Errorf("round %d: no compare-and-swap succeeded but the key holds %q", ri, got)
+			}
+		}
+		if winners == 1 {
+			st.Label("round:one-winner")
+		} else {
+			st.Label("round:no-winner")
+		}
+	}
+	st.Nontrivial()
+	return nil
+}
+
+var specC11Conc = &Spec{
+	ID:      "C11",
+	Rule:    "concurrent mode: 3..12 rounds; in each round 2..4 goroutines start together, each committing a batch of one conditional op on the same key (put-if-absent on an absent key / CAS from the same old value / compare-and-delete from the same iterator position) plus one unconditional put of its own marker key. Oracle: at most one batch takes effect; a batch's marker is present iff the batch reported success (all or nothing); the key holds the winner's value (or is gone). Free-running, all six engine variants. Non-trivial = every executed case; distinct = SHA-1 of the case",
+	Gen:     genC11Conc,
+	New:     func() interface{} { return &c11ConcCase{} },
+	Run:     runC11Conc,
+	Engines: AllEngines,
+}
+
+func TestC11Conc(t *testing.T) { RunProperty(t, specC11Conc) }
